@@ -154,7 +154,7 @@ REG.add(Contract(F_CLI, '_make_config_parser',
                 'additions-count', 'additions-in-command-line-order', 'filter-as-asked', 'filter-mode', 'filter-species'],      # (without a view only the first of the three filter clauses exists)
     invariants={0: lambda v, old: _dict_state(v.override_dict, _items(old)[0], _items(old)[1], v._i0, z3.IntVal(0)),
                 1: lambda v, old: _dict_state(v.override_dict, _items(old)[0], _items(old)[1], z3.Length(_items(old)[0]), v._i1),
-                2: lambda v, old: _adds_state(v.additional_list, _items(old)[2], v._i2)},
+                2: lambda v, old: _adds_state(v.additional_list, flat(old._ex.term_of(old.val('additional').val, old._st)), v._i2)},      # (inside the loop the option was given: its items are the flattened lists)
     ghost={'override_dict': T.ODict(T.Tuple(T.Str, T.Str), T.Obj('ConfigParserOverrideTuple')), 'additional_list': T.Obj('ConfigParserOverrideTuple')},
     raises_when=lambda v, old, exc: [z3.BoolVal(exc.cls == 'ConfigurationException')], on_raise=lambda v, old: [], raises_classes=['ConfigurationException'],
     definitions=items_definitions, instantiate_int_foralls=True, carries=['post', 'preserve/0', 'preserve/1', 'preserve/2'], props=['C13', 'C14']))
